@@ -17,7 +17,7 @@ K = (16, 24, 32)
 
 
 def rb(rng, n):
-    return bytes(rng.randrange(256) for _ in range(n))
+    return rng.randbytes(n)
 
 
 # ---------------------------------------------------------------- DER helpers (reference encoder)
